@@ -67,7 +67,9 @@ def main():
                 else:
                     shutil.copy(src, f"{SV}/OUT/{f_}")
             sh("cargo build --offline -q", cwd=SV)
-            code, o = sh(f"bash -c 'SCRUT_BIN={SV}/target/debug/scrut bash OUT/{demo} > /tmp/sv_demo.out 2>&1; echo EXIT=$?'; tail -15 /tmp/sv_demo.out", cwd=SV)
+            # some demos take the worktree as their only argument, others the binary (default ./target/debug/scrut)
+            arg = SV if 'ROOT="${1:-' in open(f"{out}/{demo}").read() else ""
+            code, o = sh(f"bash -c 'SCRUT_BIN={SV}/target/debug/scrut bash OUT/{demo} {arg} > /tmp/sv_demo.out 2>&1; echo EXIT=$?'; tail -15 /tmp/sv_demo.out", cwd=SV)
             ok = "EXIT=0" in o
             cmd = f"bash OUT/{demo}"
         meta["ran"].append({"what": label, "cmd": cmd, "passed": ok, "tail": o[-600:]})
